@@ -387,6 +387,12 @@ func (x *Exec) assignsFrame(fr *Frame, st *State, ctx *FuncCtx) {
 	onlyAt := func(key string) []*Term {
 		var out []*Term
 		for _, a := range ctx.Contract.Assigns {
+			if strings.HasPrefix(a, "@") {
+				if pv, ok := ctx.Params[a[1:]].(PtrV); ok && (key == pv.Prefix || strings.HasPrefix(key, pv.Prefix+".")) {
+					out = append(out, pv.Addr)
+				}
+				continue
+			}
 			if i := strings.Index(a, "@"); i > 0 && !strings.HasPrefix(a, "ghost:") && strings.Contains(key, a[:i]) {
 				if ad, ok := x.frameObj(x.entrySpecEnv(ctx), a[i+1:]); ok {
 					out = append(out, ad)
